@@ -24,6 +24,8 @@ EXPLANATION = 'R03.1 non-dim o re-dim == identity and conversion factors carry t
 
 EXPLANATION += ' R03.13 the boundary table (default request and explicit requests) holds the surface values of the unit system of the solve, dimensional and non-dimensionalised.'
 
+TECHNIQUE += '; the boundary table of the driver (default and explicit requests) by prefix interpretation in both unit systems'
+
 def run(chk):
     repo = Repo(chk.repo)
     d = X.Decider(seed=chk.seed, k=2 if chk.tier == 'quick' else 6)
